@@ -98,4 +98,5 @@ def main():
                       "bad": bad[:400], "n_bad": len(bad), "bad_runs": sorted(per_run)}, ensure_ascii=False))
 
 
-main()
+from replay._guard import run_guarded  # noqa: E402
+run_guarded(main, 'the real parser raises next to an inert word')
